@@ -13,6 +13,17 @@ types, (e) the type-parameter list.  An assertion file concretised from the spec
 assignability, that the wrapper implements I, and that the constraints admit the same type arguments.  The Go
 toolchain decides.  The dump the probe writes is turned into events and validated by TLC against
 spec/DataModelTrace.tla (each method once; booleans as the contract says; names distinct / valid / uncaptured).
+
+COVERAGE TABLE
+  each method once       dump validated by TLC (DataModelTrace.tla) against Sig.tla MethodSet, all families incl. Ext, universe embeds.
+  strings denote types   probe sections decl / fwd / lists / named / names / paramacc / tparam compiled in-package, in a separate package and in
+                         the external _test package, with an assertion file from the spec.  ABSENT: AcceptsContext with a non-stdlib package
+                         named context; accessors called with out-of-range ArgCallListSlice bounds; several interfaces per probe file.
+  every Param accessor   for .Params AND .Returns (Variadic, TypeStringEllipsis, TypeStringVariadicUnderlying, MethodArg, CallName, Nillable,
+                         Var.*): DataModel.tla ExpParam / ExpResult.  POINT: IsSlice is dumped but has no contract value (named slice types absent).
+  names                  distinct / valid / not capturing, user-written and GENERATED (GenPre), blank identifiers.
+  type-parameter data    count, constraint equivalence both ways via zzC1 / zzC2, multi-element and recursive constraints.
+                         ABSENT: TypeParam.Constraint (types.Type) is not inspected directly, only through the ensure line of C01.
 """
 import json
 import os
